@@ -6,8 +6,7 @@ import (
 	"sort"
 	"strings"
 	"unicode"
-
-	"github.com/rivo/uniseg"
+	"unicode/utf8"
 
 	"github.com/reeflective/readline/inputrc"
 	"github.com/reeflective/readline/internal/color"
@@ -435,9 +434,10 @@ func (rl *Shell) selfInsert() {
 	var quoted []rune
 	var length int
 
-	if rl.Config.GetBool("output-meta") && key[0] != inputrc.Esc {
+	// A character decoded from several bytes is text, never a meta key.
+	if key[0] >= utf8.RuneSelf || (rl.Config.GetBool("output-meta") && key[0] != inputrc.Esc) {
 		quoted = append(quoted, key[0])
-		length = uniseg.StringWidth(string(quoted))
+		length = len(quoted)
 	} else {
 		quoted, length = strutil.Quote(key[0])
 	}
